@@ -921,6 +921,18 @@ class Mesh2DTopology:
         Get the name of the dimension with size two, for things like edge
         connectivity. The standard name for this dimension is 'Two'.
         """
+        # The edge_node and edge_face connectivity variables are defined on
+        # the edge dimension and this dimension, whatever it is called.
+        if self.has_edge_dimension:
+            for key in ['edge_node_connectivity', 'edge_face_connectivity']:
+                name = self.mesh_attributes.get(key)
+                if name in self.dataset.variables:
+                    dims = [
+                        dim for dim in self.dataset.variables[name].dims
+                        if dim != self.edge_dimension]
+                    if len(dims) == 1 and self.dataset.sizes[dims[0]] == 2:
+                        return dims[0]
+
         two = 'Two'
         # Check for the standard name
         if two in self.dataset.sizes and self.dataset.sizes[two] == 2:
